@@ -89,7 +89,7 @@ func init() {
 				J("H_C20_setbits", po, "n", 2, "lz", 0, "p", 0), J("H_C20_setbits", po, "n", 3, "lz", 1, "p", 5), J("H_C20_setbits", po, "n", 0, "lz", 0, "p", 0),
 				J("H_C20_mantexp", po, "fx", 1, "w", 1), J("H_C14_setint64", po, "which", 2, "p", 0), J("H_C14_setint", po, "n", 1, "p", 0),
 				J("H_C17_bytes", po, "L", 3), J("H_C17_bytes", po, "L", 9), J("H_C17_bytes", po, "L", 18),
-				J("H_C06_mul", po, "m", 2, "n", 2), J("H_C06_div", po, "m", 2, "n", 1), J("H_C05_sqrt", po, "fx", 0), J("H_C05_sqrt", po, "fx", 2), J("H_C05_sqrt", po, "fx", 1, "neg", 1), J("H_C05_sqrt", po, "fx", 1, "stubs", 1))
+				J("H_C06_mul", po, "m", 2, "n", 2), J("H_C06_div", po, "m", 2, "n", 1), J("H_C05_sqrt", po, "fx", 0), J("H_C05_sqrt", po, "fx", 2), J("H_C05_sqrt", po, "fx", 1, "neg", 1), J("H_C05_sqrt", po, "fx", 2, "neg", 1), J("H_C05_sqrt", po, "fx", 1, "stubs", 1))
 			return jobs
 		},
 		Bounds: map[string]string{
@@ -159,6 +159,8 @@ func init() {
 			}
 			jobs = append(jobs, J("H_C01_mul", o, "wx", 1, "wy", 1, "p", 19, "capx", 1), J("H_C01_mul", o, "wx", 1, "wy", 1, "p", 0, "p0", 1, "px", 3, "py", 2),
 				nat(J("H_C01_quo", o, "wx", 1, "wy", 1, "p", 19)), J("H_C01_quo", o, "wx", 1, "wy", 1, "p", 5),
+				// long dividend: no scratch copy of x is made, the real division must not write into it
+				J("H_C01_quo", o, "wx", 3, "wy", 1, "p", 5, "capx", 2), J("H_C01_quo", o, "wx", 2, "wy", 1, "p", 1, "capx", 1),
 				J("H_C03_fma", o, "d", 0, "p", 19), J("H_C03_fma", o, "d", 0, "p", 5, "alias", 3),
 				J("H_C01_set", o, "which", 0, "w", 1, "p", 1, "p0", 1, "px", 7), J("H_C01_set", o, "which", 1, "w", 2, "p", 5), J("H_C01_set", o, "which", 2, "w", 1, "p", 5),
 				J("H_C01_setprec", o, "w", 2, "p", 20), J("H_C14_setint64", o, "which", 0, "p", 0), J("H_C14_setint64", o, "which", 1, "p", 7), J("H_C14_setint64", o, "which", 2, "p", 0),
@@ -204,6 +206,8 @@ func init() {
 				jobs = append(jobs, J("H_C01_mul", o, "wx", 1, "wy", 1, "p", 19, "alias", al), nat(J("H_C01_quo", o, "wx", 1, "wy", 1, "p", 5, "alias", al)),
 					J("H_C01_quo", obl("C08.", "C09."), "wx", 1, "wy", 1, "p", 5, "alias", al))
 			}
+			// real multi-word long division under aliasing: concrete extremal divisor (every product linear)
+			jobs = append(jobs, J("H_C01_quo", o, "wx", 1, "wy", 2, "p", 1, "ypat0", 4, "ypat1", 2, "alias", 2), J("H_C01_quo", o, "wx", 2, "wy", 2, "p", 1, "ypat0", 4, "ypat1", 2, "alias", 1))
 			jobs = append(jobs, J("H_C01_mul", o, "wx", 1, "wy", 1, "p", 19, "same", 1), J("H_C01_mul", o, "wx", 1, "wy", 1, "p", 19, "same", 1, "alias", 1),
 				J("H_C01_mul", o, "wx", 2, "wy", 2, "p", 38, "alias", 5, "zf", 1, "wz", 1, "capx", 5),
 				J("H_C03_fma", o, "d", 0, "p", 19, "alias", 1), J("H_C03_fma", o, "d", 0, "p", 5, "alias", 3), J("H_C03_fma", o, "d", 0, "p", 5, "alias", 5, "zf", 1, "capx", 2),
